@@ -60,6 +60,7 @@ structure St where
   installed : Bool       -- pid.reentrancy != nil
   defMode : Mode
   maxInFlight : Nat      -- 0 = unlimited
+  grainTarget : Bool := false   -- requests go to a grain (RequestGrain); only the reply route differs
   reqs : List (Nat × Req) := []
   inFlight : Int := 0
   blocking : Int := 0
@@ -180,7 +181,9 @@ def step (s : St) (op : Op) : St × Res :=
     -- the responder holds a reply route only for requests that were sent
     match getReq s.reqs k with
     | none => (s, .none)
-    | some _ => if !s.running then (s, .err) else (enqueue s (.resp k .ok), .ok)
+    | some _ =>
+      -- an actor responder's reply route reports the dead requester; a GrainReply only logs it
+      if !s.running then (s, if s.grainTarget then .ok else .err) else (enqueue s (.resp k .ok), .ok)
   | .x k =>
     match getReq s.reqs k with
     | none => (s, .none)
@@ -208,8 +211,8 @@ def step (s : St) (op : Op) : St × Res :=
     if !s.running then (s, .gone) else
     ({ s with running := false, reqs := cancelAll s.reqs, inFlight := 0, blocking := 0 }, .ok)
 
-def St.init (installed : Bool) (defMode : Mode) (max : Nat) : St :=
-  { installed := installed, defMode := defMode, maxInFlight := max }
+def St.init (installed : Bool) (defMode : Mode) (max : Nat) (grainTarget : Bool := false) : St :=
+  { installed := installed, defMode := defMode, maxInFlight := max, grainTarget := grainTarget }
 
 /-- run a script, returning after each op the state and the op's result -/
 def run (s : St) : List Op → List (St × Res)
